@@ -971,7 +971,7 @@ Section TransportRT.
     - destruct s as [s|n].
       + destruct (fill_path esc r m) as [w'|]; [|discriminate]. inversion H; subst. rewrite String.eqb_refl. apply IH. reflexivity.
       + destruct (olookup n m) as [v|] eqn:K; [|discriminate]. destruct (String.eqb v ""); [discriminate|].
-        destruct (fill_path esc r m) as [w'|]; [|discriminate]. inversion H; subst. rewrite (IH w' eq_refl). simpl. rewrite unesc_esc. reflexivity.
+        destruct (fill_path esc r m) as [w'|]; [|discriminate]. inversion H; subst. rewrite (IH w' eq_refl). simpl. rewrite unesc_esc, K. reflexivity.
   Qed.
 
   Lemma fill_path_defined p m : (forall n, In n (path_vars p) -> exists v, olookup n m = Some v /\ v <> EmptyString) ->
